@@ -8,11 +8,11 @@ From Snax Require Import Base.Prelude Base.ListAux Model.MultiCore Model.C15Pipe
    overtake_safe: an earlier stage k' of a later iteration t' that runs before or together with
      a later stage k of an earlier iteration t (t < t' <= t + (k-k')) does not conflict with it;
    stage_safe: ops of one stage instance on different cores do not conflict. *)
-Definition overtake_safe (p : pipe) (ds : list Z) : Prop :=
-  forall k k' t t' a b, (k' < k)%nat -> 0 <= t -> t < t' <= t + Z.of_nat (k - k') ->
+Definition overtake_safe (p : pipe) (ds : list Z) (n : nat) : Prop :=
+  forall k k' t t' a b, (k' < k)%nat -> 0 <= t -> t < t' <= t + Z.of_nat (k - k') -> t' < Z.of_nat n ->
     In a (pair_ops p ds (k, t)) -> In b (pair_ops p ds (k', t')) -> conflictb a b = false.
-Definition stage_safe (p : pipe) (ds : list Z) : Prop :=
-  forall k t a b, In a (pair_ops p ds (k, t)) -> In b (pair_ops p ds (k, t)) ->
+Definition stage_safe (p : pipe) (ds : list Z) (n : nat) : Prop :=
+  forall k t a b, 0 <= t < Z.of_nat n -> In a (pair_ops p ds (k, t)) -> In b (pair_ops p ds (k, t)) ->
     o_core a <> o_core b -> conflictb a b = false.
 Definition vids_unique (p : pipe) : Prop := NoDup (map s_vid (concat (p_stages p))).
 
@@ -153,15 +153,20 @@ Qed.
 (* ---- order inversions ------------------------------------------------------------------------------ *)
 Lemma before_Pl p ds S n a b : before (Pl p ds S n) a b ->
   exists k t k' t', In a (pair_ops p ds (k, Z.of_nat t)) /\ In b (pair_ops p ds (k', Z.of_nat t')) /\
+    (t < n)%nat /\ (t' < n)%nat /\
     ((t < t')%nat \/ (t = t' /\ k < k')%nat \/ (t = t' /\ k = k' /\ before (pair_ops p ds (k, Z.of_nat t)) a b)).
 Proof.
   intros H. unfold Pl in H. apply before_flat_map_inv in H as [[t [t' [Hb [Ha Hb']]]]|[t [Ht H]]].
-  - apply before_seq in Hb.
+  - pose proof (before_in _ _ _ Hb) as [Ht Ht']. apply in_seq in Ht. apply in_seq in Ht'.
+    apply before_seq in Hb.
     apply in_flat_map in Ha as [k [_ Ha]]. apply in_flat_map in Hb' as [k' [_ Hb']].
-    exists k, t, k', t'. repeat split; try assumption. left. exact Hb.
-  - apply before_flat_map_inv in H as [[k [k' [Hb [Ha Hb']]]]|[k [Hk H]]].
-    + apply before_seq in Hb. exists k, t, k', t. repeat split; try assumption. right. left. split; [reflexivity | exact Hb].
-    + pose proof (before_in _ _ _ H) as [Ha Hb]. exists k, t, k, t. repeat split; try assumption.
+    exists k, t, k', t'. split; [exact Ha|]. split; [exact Hb'|]. split; [lia|]. split; [lia|]. left. exact Hb.
+  - apply in_seq in Ht.
+    apply before_flat_map_inv in H as [[k [k' [Hb [Ha Hb']]]]|[k [Hk H]]].
+    + apply before_seq in Hb. exists k, t, k', t. split; [exact Ha|]. split; [exact Hb'|]. split; [lia|]. split; [lia|].
+      right. left. split; [reflexivity | exact Hb].
+    + pose proof (before_in _ _ _ H) as [Ha Hb]. exists k, t, k, t.
+      split; [exact Ha|]. split; [exact Hb|]. split; [lia|]. split; [lia|].
       right. right. repeat split. exact H.
 Qed.
 
@@ -206,7 +211,7 @@ Qed.
 
 (* ---- reordering: the unrolled sequence computes what the loop with the selected copies does ------- *)
 Theorem pipeline_reorder : forall p ds n m,
-  vids_unique p -> overtake_safe p ds -> (1 <= nstages p)%nat -> (nstages p - 1 <= n)%nat ->
+  vids_unique p -> overtake_safe p ds n -> (1 <= nstages p)%nat -> (nstages p - 1 <= n)%nat ->
   meq (exec (concat (pipe_events p ds (Z.of_nat n) 1)) m)
       (exec (concat (seq_events_sel p ds 0 (Z.of_nat n) 1)) m).
 Proof.
@@ -215,7 +220,7 @@ Proof.
   - apply NoDup_Pl. exact Hu.
   - apply perm_Pl_Ql; assumption.
   - intros a b Hab Hba.
-    apply before_Pl in Hab as [k [t [k' [t' [Ha [Hb Hord]]]]]].
+    apply before_Pl in Hab as [k [t [k' [t' [Ha [Hb [Htn [Htn' Hord]]]]]]]].
     apply before_Ql in Hba as [kb [tb [ka [ta [Hb2 [Ha2 [Htb [Hta Hord2]]]]]]]]; [|assumption|assumption].
     destruct (pair_ops_key _ _ _ _ _ _ _ Hu Ha Ha2) as [<- <-].
     destruct (pair_ops_key _ _ _ _ _ _ _ Hu Hb Hb2) as [<- <-].
@@ -231,7 +236,7 @@ Proof.
 Qed.
 
 (* every barrier-separated phase of the unrolled code is free of cross-core conflicts *)
-Lemma phases_drf p ds n : overtake_safe p ds -> stage_safe p ds -> vids_unique p ->
+Lemma phases_drf p ds n : overtake_safe p ds n -> stage_safe p ds n -> vids_unique p ->
   (1 <= nstages p)%nat -> (nstages p - 1 <= n)%nat ->
   Forall (fun ph => phase_drfb ph = true) (pipe_events p ds (Z.of_nat n) 1).
 Proof.
@@ -247,7 +252,9 @@ Proof.
     { unfold ks in Hb. destruct (x <? nstages p - 1)%nat; [|destruct (x <? n)%nat]; apply before_seq in Hb; exact Hb. }
     apply conflictb_sym.
     apply (Ho k' k (Z.of_nat x - Z.of_nat k') (Z.of_nat x - Z.of_nat k)); try assumption; lia.
-  - pose proof (before_in _ _ _ H) as [Ha Hb]. eapply Hs; eassumption.
+  - apply in_ks in Hk; [|assumption|assumption|lia].
+    pose proof (before_in _ _ _ H) as [Ha Hb].
+    apply (Hs k (Z.of_nat x - Z.of_nat k)); [lia | assumption..].
 Qed.
 
 (* C15 pipeline_equiv (PARTIAL: under the footprint hypotheses; reference = the loop executing
@@ -255,7 +262,7 @@ Qed.
    interleaving of the cores between consecutive barriers, the unrolled double-buffered code
    leaves the memory the sequential loop leaves. *)
 Theorem pipeline_equiv_partial : forall p ds n m ss,
-  vids_unique p -> overtake_safe p ds -> stage_safe p ds ->
+  vids_unique p -> overtake_safe p ds n -> stage_safe p ds n ->
   (1 <= nstages p)%nat -> (nstages p - 1 <= n)%nat ->
   Forall2 schedule_of (pipe_events p ds (Z.of_nat n) 1) ss ->
   meq (exec (concat ss) m) (exec (concat (seq_events_sel p ds 0 (Z.of_nat n) 1)) m).
@@ -266,8 +273,70 @@ Proof.
   - apply pipeline_reorder; assumption.
 Qed.
 
+(* ---- decidable checkers for the footprint hypotheses (bounded by the trip count) ---------------- *)
+Definition free_lists (l1 l2 : list mop) : bool :=
+  forallb (fun a => forallb (fun b => negb (conflictb a b)) l2) l1.
+
+Definition overtake_safeb (p : pipe) (ds : list Z) (n : nat) : bool :=
+  forallb (fun k => forallb (fun k' => forallb (fun t => forallb (fun d =>
+     let t' := (t + 1 + d)%nat in
+     (n <=? t')%nat || free_lists (pair_ops p ds (k, Z.of_nat t)) (pair_ops p ds (k', Z.of_nat t')))
+     (seq 0 (k - k'))) (seq 0 n)) (seq 0 k)) (seq 0 (nstages p)).
+
+Definition stage_safeb (p : pipe) (ds : list Z) (n : nat) : bool :=
+  forallb (fun k => forallb (fun t =>
+     let l := pair_ops p ds (k, Z.of_nat t) in
+     forallb (fun a => forallb (fun b => (o_core a =? o_core b) || negb (conflictb a b)) l) l)
+     (seq 0 n)) (seq 0 (nstages p)).
+
+Lemma pair_ops_overflow p ds k t : (nstages p <= k)%nat -> pair_ops p ds (k, t) = [].
+Proof. intros H. unfold pair_ops. simpl. rewrite nth_overflow by exact H. reflexivity. Qed.
+
+Lemma overtake_safeb_sound p ds n : overtake_safeb p ds n = true -> overtake_safe p ds n.
+Proof.
+  intros H k k' t t' a b Hk Ht Ht' Hn Ha Hb.
+  destruct (le_lt_dec (nstages p) k) as [Hge|Hlt].
+  { rewrite pair_ops_overflow in Ha by exact Hge. destruct Ha. }
+  unfold overtake_safeb in H. rewrite forallb_forall in H.
+  specialize (H k (proj2 (in_seq _ _ _) (conj (Nat.le_0_l _) Hlt))). rewrite forallb_forall in H.
+  specialize (H k' (proj2 (in_seq _ _ _) (conj (Nat.le_0_l _) Hk))). rewrite forallb_forall in H.
+  assert (Htn : In (Z.to_nat t) (seq 0 n)) by (apply in_seq; lia).
+  specialize (H _ Htn). rewrite forallb_forall in H.
+  assert (Hd : In (Z.to_nat (t' - t - 1)) (seq 0 (k - k'))) by (apply in_seq; lia).
+  specialize (H _ Hd). cbv zeta in H.
+  replace (Z.of_nat (Z.to_nat t)) with t in H by lia.
+  replace (Z.of_nat (Z.to_nat t + 1 + Z.to_nat (t' - t - 1))) with t' in H by lia.
+  apply orb_true_iff in H as [H|H]; [apply Nat.leb_le in H; lia|].
+  unfold free_lists in H. rewrite forallb_forall in H. specialize (H a Ha).
+  rewrite forallb_forall in H. specialize (H b Hb). apply negb_true_iff in H. exact H.
+Qed.
+
+Lemma stage_safeb_sound p ds n : stage_safeb p ds n = true -> stage_safe p ds n.
+Proof.
+  intros H k t a b Ht Ha Hb Hc.
+  destruct (le_lt_dec (nstages p) k) as [Hge|Hlt].
+  { rewrite pair_ops_overflow in Ha by exact Hge. destruct Ha. }
+  unfold stage_safeb in H. rewrite forallb_forall in H.
+  specialize (H k (proj2 (in_seq _ _ _) (conj (Nat.le_0_l _) Hlt))). rewrite forallb_forall in H.
+  assert (Htn : In (Z.to_nat t) (seq 0 n)) by (apply in_seq; lia).
+  specialize (H _ Htn). cbv zeta in H. replace (Z.of_nat (Z.to_nat t)) with t in H by lia.
+  rewrite forallb_forall in H. specialize (H a Ha). rewrite forallb_forall in H. specialize (H b Hb).
+  apply orb_true_iff in H as [H|H]; [apply Z.eqb_eq in H; contradiction | apply negb_true_iff in H; exact H].
+Qed.
+
+(* the checked form: the hypotheses are decided by computation for a given trip count *)
+Theorem pipeline_equiv_checked : forall p ds n m ss,
+  vids_unique p -> overtake_safeb p ds n = true -> stage_safeb p ds n = true ->
+  (1 <= nstages p)%nat -> (nstages p - 1 <= n)%nat ->
+  Forall2 schedule_of (pipe_events p ds (Z.of_nat n) 1) ss ->
+  meq (exec (concat ss) m) (exec (concat (seq_events_sel p ds 0 (Z.of_nat n) 1)) m).
+Proof.
+  intros p ds n m ss Hu Ho Hs. apply pipeline_equiv_partial;
+    [exact Hu | apply overtake_safeb_sound; exact Ho | apply stage_safeb_sound; exact Hs].
+Qed.
+
 (* non-vacuity: the standard three-stage load / compute / store pipeline satisfies the hypotheses
-   for its (duplicated) buffers 10 and 11 — checked here on the instances of 6 iterations *)
+   for its (duplicated) buffers 10 and 11 *)
 Definition pipe3 : pipe :=
   mkPipe [[mkSop 1 1 [Tile 0 8] [Fixed 10] false];
           [mkSop 2 0 [Fixed 10] [Fixed 11] false];
@@ -275,3 +344,13 @@ Definition pipe3 : pipe :=
 
 Example pipe3_dups : dups pipe3 = Some [10; 11] /\ safe_pipe pipe3 [10; 11] = true.
 Proof. split; reflexivity. Qed.
+
+Example pipe3_hypotheses :
+  vids_unique pipe3 /\ overtake_safeb pipe3 [10; 11] 40 = true /\ stage_safeb pipe3 [10; 11] 40 = true /\
+  (* without the second copies the same loop is NOT overtake safe *)
+  overtake_safeb pipe3 [] 40 = false.
+Proof.
+  split; [|split; [|split]]; try (vm_compute; reflexivity).
+  unfold vids_unique. simpl. repeat constructor; simpl; intuition congruence.
+Qed.
+
